@@ -35,8 +35,29 @@ for seed in seeds:
             rec["suite"] = b.stdout.strip().splitlines()[0] if b.stdout.strip() else "no output"
             rec["suite_ok"] = b.returncode == 0
             if b.returncode != 0:
-                # threaded LLCP tests are flaky under load: one retry
-                b = suite()
+                # threaded LLCP tests are flaky under load: the tests that are
+                # missing are run once more on their own (up to three times)
+                missing = [l.strip().split("MISSING ", 1)[1] for l in b.stdout.splitlines() if "MISSING " in l]
+                nodes = []
+                for m in missing:
+                    cls, name = m.split("::", 1)
+                    parts = cls.split(".")
+                    k = max(i for i, x in enumerate(parts) if x.startswith("test_"))
+                    nodes.append("/".join(parts[:k + 1]) + ".py::" + "::".join(parts[k + 1:] + [name]))
+                alone_ok = bool(nodes) and len(nodes) <= 20
+                if alone_ok:
+                    for attempt in range(3):
+                        r = subprocess.run(["/venv/bin/python", "-m", "pytest", "-q", "-p", "no:cacheprovider",
+                                            "--timeout=300"] + nodes, cwd=wt, capture_output=True, text=True,
+                                           env=dict(os.environ, PYTHONPATH=os.path.join(wt, "src")))
+                        if r.returncode == 0:
+                            break
+                    alone_ok = r.returncode == 0
+                if alone_ok:
+                    rec["suite_flaky_rerun_alone"] = nodes
+                    b = subprocess.CompletedProcess([], 0, b.stdout.splitlines()[0] + " (missing tests pass when run alone)", "")
+                else:
+                    b = suite()
                 rec["suite_retry"] = b.stdout.strip().splitlines()[0] if b.stdout.strip() else "no output"
                 rec["suite_ok"] = b.returncode == 0
                 rec["suite_missing"] = [l.strip() for l in b.stdout.splitlines() if "MISSING" in l][:5]
